@@ -712,11 +712,24 @@ static std::string doStep(const vj::Val& st) {
       StringReader rd(srctext);
       Executable* ex = nullptr;
       std::string oc = "ok"; int no = 0; std::string name, msg;
+      bool viaCapi = st.boolean("capi", false);
+      if (viaCapi) {
+        /* the way an embedding C program does it: bloc_parse_executable + bloc_execute on the same context */
+        bloc_parsing_position pos;
+        bloc_executable* x = bloc_parse_executable(reinterpret_cast<bloc_context*>(c.ctx), srctext.c_str(), &pos);
+        if (!x) oc = "parse_error";
+        else {
+          ex = reinterpret_cast<Executable*>(x);
+          c.execs.push_back(ex); c.last = ex;
+          if (!bloc_execute(x)) oc = "runtime_error";
+        }
+      }
+      else
       try {
         ex = Parser::parse(*c.ctx, rd);
         if (!ex) { oc = "parse_null"; }
       } catch (ParseError& pe) { oc = "parse_error"; no = pe.no; msg = pe.what(); }
-      if (ex) {
+      if (ex && !viaCapi) {
         c.execs.push_back(ex);
         c.last = ex;
         if (op != "parse") {
